@@ -187,7 +187,8 @@ PPStep(s, e) ==
       mkrow(r) == [id |-> <<r.actor, e.sess, r.cs>>, s |-> r.s, actor |-> r.actor, cs |-> r.cs,
                    lam |-> r.lam, vv |-> r.vv, nops |-> r.nops, pres |-> r.pres, stripped |-> FALSE]
       newrows == [i \in DOMAIN e.rows |-> mkrow(e.rows[i])]
-      exp == IF e.created /\ ~stale THEN Pushables(e) ELSE <<>>
+      \* pushPack: changes of a stale epoch and changes pushed to a removed document are discarded
+      exp == IF e.created /\ ~stale /\ ~s.removed[d] THEN Pushables(e) ELSE <<>>
       \* -- C04 / C05 / C10 / C11 checks on what was stored
       vStore ==
         Chk(\A i \in DOMAIN newrows : newrows[i].s = Len(old) + i, "LogDense") \cup
